@@ -38,6 +38,25 @@ pub proof fn lemma_qpush_count(a: S, b: S, p: GcPtr, q: GcPtr)
     lemma_count_push(a.gray_again, p, q);
 }
 
+/// cardinality bookkeeping for T-pace: when only object t changes, the non-White / Black sets move by at most t
+pub proof fn lemma_sets_step(a: Map<GcPtr, Obj>, b: Map<GcPtr, Obj>, t: GcPtr)
+    requires a.dom().contains(t), b.dom() =~= a.dom(), forall|q: GcPtr| q != t && #[trigger] a.dom().contains(q) ==> b[q] == a[q],
+    ensures
+        nwset(b).len() - nwset(a).len() == (if a[t].color == GcColor::White && b[t].color != GcColor::White { 1int }
+            else if a[t].color != GcColor::White && b[t].color == GcColor::White { -1int } else { 0int }),
+        blkset(b).len() - blkset(a).len() == (if a[t].color != GcColor::Black && b[t].color == GcColor::Black { 1int }
+            else if a[t].color == GcColor::Black && b[t].color != GcColor::Black { -1int } else { 0int }),
+{
+    let na = nwset(a); let nb = nwset(b);
+    if a[t].color == GcColor::White && b[t].color != GcColor::White { assert(nb =~= na.insert(t)); }
+    else if a[t].color != GcColor::White && b[t].color == GcColor::White { assert(nb =~= na.remove(t)); }
+    else { assert(nb =~= na); }
+    let ka = blkset(a); let kb = blkset(b);
+    if a[t].color != GcColor::Black && b[t].color == GcColor::Black { assert(kb =~= ka.insert(t)); }
+    else if a[t].color == GcColor::Black && b[t].color != GcColor::Black { assert(kb =~= ka.remove(t)); }
+    else { assert(kb =~= ka); }
+}
+
 pub proof fn lemma_marks_step(s0: S, s1: S, s2: S, es: Seq<Edge>, i: int)
     requires
         marks_rel(s0, s1, es), 0 <= i < es.len(), isobj(s0, es[i].to),
@@ -84,6 +103,7 @@ pub proof fn lemma_marks_step(s0: S, s1: S, s2: S, es: Seq<Edge>, i: int)
         if k < i { assert(edge_done(s1, es[k])); assert(isobj(s1, es[k].to) || true); }
     }
     assert(s2.objs.dom() =~= s0.objs.dom());
+    lemma_sets_step(s1.objs, s2.objs, t);
 }
 
 } // mod lemmas
